@@ -273,8 +273,11 @@ SrcDesc(P, inj, t) ==
                             pptr |-> IsPtr(P, l.parent),
                             fptr |-> (IsPtr(P, l.parent) /\ t = Ptr(FieldRec(P, StructBase(P, l.parent), l.names[u.n]).type))]
       [] l.k = "bind"   -> [k |-> "bind", p |-> l.name, conc |-> l.conc]
-      [] l.k = "value"  -> [k |-> "value", p |-> l.name]
-      [] l.k = "ivalue" -> [k |-> "value", p |-> l.name]
+      \* tok: the token the rendered expression carries when the specification determines it (a plain token type whose
+      \* expression is the standard literal or a package-level variable holding it); "" = known only by observation
+      [] l.k = "value"  -> [k |-> "value", p |-> l.name,
+                            tok |-> IF IsKind(P, t, "tok") /\ (l.expr = "" \/ SubSeq(l.expr, 1, 5) = "@var:") THEN "V:" \o l.name ELSE ""]
+      [] l.k = "ivalue" -> [k |-> "value", p |-> l.name, tok |-> ""]
       [] OTHER -> [k |-> "?"]
 Wiring(P, inj) ==
   [t \in Needed(P, inj) \cap Provided(P, inj.items, inj.params) |-> SrcDesc(P, inj, t)]
